@@ -74,6 +74,7 @@ int main()
         if (line.empty())
             continue;
         auto f = vh::fields(line);
+        vh::case_alarm(300); // per-case watchdog: a hang becomes the observation abort:timeout for this case
         bool agree = line.rfind("agree ", 0) == 0;
         std::cout << vs::guarded([&] { return agree ? run_agree(f) : run_pca(f); }) << std::endl;
     }
